@@ -453,11 +453,19 @@ def build_pool(cs, ctx):
     xylay = cs.choice("xy.lay", ["contig_exact", "fortran_exact", "contig",
                                  "fortran"])
     view, guards = pool.carve(xy, xylay, "xy")
-    pool.add("xy", view, guards, f"xy[N,2,{xylay}]")
+    pool.add("xy", view, guards, f"xy[N,2,{xylay}]", {"xyN2"})
     xyt = rs.normal(0, 1, (2, N))
     view, guards = pool.carve(xyt, "contig_exact", "xyt")
-    pool.add("xy", view.T, guards, "xy[transposed view of a 2xN block]")
+    pool.add("xy", view.T, guards, "xy[transposed view of a 2xN block]",
+             {"xyN2"})
     pool.add("xy", view, guards, "xy[2xN block]")
+
+    # category bounds that lie inside the range of most pool series, so that
+    # a function "widening" them would have to write
+    for j, cuts in enumerate(([0.5, 1.0, 2.0, 3.0], [-0.5, 0.0, 0.5, 1.0, 4.0])):
+        view, guards = pool.carve(np.array(cuts, dtype=np.float64), "contig",
+                                  f"cuts{j}")
+        pool.add("cuts", view, guards, f"cuts[{len(cuts)} bounds]")
 
     # ---- pandas
     idx_daily = pd.date_range("2001-01-01", periods=N, freq="D")
@@ -1213,6 +1221,28 @@ def catalogue():
             plt.close(fig)
     add("putils.bivarnplot", [("xy", "xy", None)], do_bivar,
         lambda cs: {"sc": cs.flip("sc", 50)}, plot=True, weight=1)
+
+    def do_scattercat(a, o):
+        # one set of category bounds used for several panels: the caller's
+        # bounds (list or array) are an argument like the data
+        fig, ax = plt.subplots()
+        try:
+            cuts = a.cuts if o["as_array"] else a.cuts.tolist()
+            plotted, cats = putils.scattercat(
+                ax, a.xy[:, 0], a.xy[:, 1], a.z, cuts=cuts, cmap=None,
+                show_extremes_in_legend=o["ext"])
+            out = [np.asarray(cats), sorted(plotted.keys()),
+                   [plotted[k]["label"] for k in sorted(plotted.keys())]]
+            if not o["as_array"]:
+                out.append(cuts == a.cuts.tolist())   # the list is unchanged
+            return out
+        finally:
+            plt.close(fig)
+    add("putils.scattercat(cuts)", [("xy", "xy", {"xyN2"}),
+                                    ("z", "series", {"f8ser"}),
+                                    ("cuts", "cuts", None)], do_scattercat,
+        lambda cs: {"as_array": cs.flip("as_array", 60),
+                    "ext": cs.flip("ext", 50)}, plot=True, weight=2)
     return E
 
 
